@@ -501,7 +501,7 @@ def gen_cases(chk, tier):
     return (gen_points(rng, tier) + gen_angles(rng, tier) + gen_lambert(rng, tier) + gen_poles(rng, tier)
             + gen_poles_options(rng2, tier) + gen_density(rng, tier)
             + gen_point_reps(rng3, tier) + gen_angle_reps(rng3, tier) + gen_lambert_reps(rng3, tier)
-            + gen_density_reps(rng3, tier))
+            + gen_density_reps(rng3, tier) + gen_grids(np.random.default_rng([chk.seed, 205]), tier))
 
 
 # --------------------------------------------------------------------------
@@ -666,6 +666,8 @@ def impl(c):
 
 
 def model_lines(c):
+    if c[0] == "grid":
+        return [common.model_line(c[1], [], [float(v) for v in p]) for p in c[3]]
     if c[0] in ("to_spherical", "to_cartesian", "lambert"):
         return [common.model_line(c[0], [], [float(v) for v in c[1]])]
     if c[0] == "poles" and popts(c):
@@ -684,6 +686,11 @@ def model_lines(c):
 
 
 def encode(c):
+    if c[0] == "grid":
+        return {"fn": c[1], "grid": True, "arrangement": c[4], "axes": None if c[2] is None else [[hx(v) for v in ax] for ax in c[2]],
+                "points": [[hx(v) for v in p] for p in c[3]], "points_readable": [list(p) for p in c[3][:6]],
+                "how_to_read": "K points in flat order; `arrangement` says how the three arguments are laid out (full arrays of a shape, Fortran / "
+                               "transposed copies, or arguments of different shapes broadcast against each other); outputs are read back point by point"}
     if c[0] == "malformed":
         return {"fn": "poles", "malformed": c[1]}
     if c[0] in ("to_spherical", "to_cartesian", "lambert"):
@@ -704,6 +711,9 @@ def encode(c):
 
 
 def decode(d):
+    if d.get("grid"):
+        axes = None if d["axes"] is None else tuple([unhx(v) for v in ax] for ax in d["axes"])
+        return ("grid", d["fn"], axes, [tuple(unhx(v) for v in p) for p in d["points"]], d["arrangement"])
     if d["fn"] in ("to_spherical", "to_cartesian", "lambert"):
         c = (d["fn"], tuple(unhx(x) for x in d["args"]))
         return c + (d["representation"],) if d.get("representation") else c
@@ -816,10 +826,15 @@ def compare(chk, cases):
                                                  "nonfinite_both_sides": 0, "near_threshold_excused": 0})
     for c, (i0, k) in zip(cases, idx):
         m = mres[i0]
-        r = impl(c)
+        r = impl(c) if c[0] != "grid" else None
         key = c[0] if c[0] != "density" else f"density:{KERNELS[c[1]]}:{'axial' if c[2] else 'nonaxial'}"
         if c[0] == "poles":
             key = f"poles:{c[1]}"
+        if c[0] == "grid":
+            msg = compare_grid(chk, c, mres[i0:i0 + k], hist)
+            if msg:
+                bad.append((c, msg))
+            continue
         if c[0] == "poles" and popts(c):
             msg = compare_poles_str(chk, c, r, mres[i0], mres[i0 + 1], mres[i0 + 2], hist)
             if msg:
@@ -873,6 +888,277 @@ def compare(chk, cases):
 
 
 # --------------------------------------------------------------------------
+# judgements of ONE point (shared by the single-point cases and by the shape families)
+# --------------------------------------------------------------------------
+def _exact(p):
+    return [int(v) if float(v).is_integer() else float(v) for v in p]
+
+
+def sph_fails(shown, pt, r, ph, th, back):
+    """to_spherical at one point: reference values from exact Python integers / math (never from NumPy)"""
+    ex = _exact(pt)
+    p = np.array([float(v) for v in ex])
+    if not np.any(p):
+        return []
+    if all(isinstance(v, int) for v in ex):
+        n = math.sqrt(sum(v * v for v in ex)) if max(abs(v) for v in ex) < 2**500 else math.hypot(*p)
+    else:
+        n = math.hypot(*p)
+    fails = []
+    if not np.all(np.isfinite([r, ph, th])):
+        fails.append(f"{shown} is not finite: {(r, ph, th)}")
+    elif not np.all(np.isfinite(back)) or np.abs(back - p).max() > 1e-9 * n:
+        fails.append(f"to_cartesian({shown}) = {back} != p = {p} (r = {r}, |p| = {n})")
+    else:
+        if abs(r - n) > 1e-12 * n:
+            fails.append(f"{shown}: r = {r} is not |p| = {n}")
+        if not (0 <= th <= math.pi) or abs(math.cos(th) - p[2] / n) > 1e-9:
+            fails.append(f"{shown}: theta = {th} is not the colatitude acos(z/r) = {math.acos(max(-1, min(1, p[2] / n)))}")
+        s = math.hypot(p[0], p[1])
+        if s > 1e-9 * n and (abs(s * math.cos(ph) - p[0]) > 1e-9 * n or abs(s * math.sin(ph) - p[1]) > 1e-9 * n):
+            fails.append(f"{shown}: phi = {ph} is not the longitude of ({p[0]}, {p[1]})")
+        elif s > 1e-9 * n and abs(math.remainder(ph - math.atan2(p[1], p[0]), 2 * math.pi)) > 1e-12:
+            fails.append(f"{shown}: phi = {ph} is not atan2(y, x) = {math.atan2(p[1], p[0])}")
+    return fails
+
+
+def cart_fails(shown, pt, x, y, z):
+    ph, th, r = (float(v) for v in pt)
+    e = np.array([r * math.sin(th) * math.cos(ph), r * math.sin(th) * math.sin(ph), r * math.cos(th)])
+    if not np.all(np.isfinite([x, y, z])) or np.abs(np.array([x, y, z]) - e).max() > 1e-12 * abs(r):
+        return [f"{shown} = {(x, y, z)}, expected {tuple(e)}"]
+    return []
+
+
+def lambert_fails(pt, X, Y):
+    x, y, z = (float(v) for v in pt)
+    if abs(x * x + y * y + z * z - 1) > 1e-12:
+        return []
+    if not (math.isfinite(X) and math.isfinite(Y)):
+        return [f"lambert_equal_area{tuple(pt)} is not finite"]
+    fails = []
+    if X * X + Y * Y > 1 + 1e-12:
+        fails.append(f"image of {tuple(pt)} lies outside the unit disk")
+    if abs(X * X + Y * Y - (1 - abs(z))) > 1e-9:
+        fails.append(f"squared radius {X * X + Y * Y} != 1 - |z| = {1 - abs(z)} at {tuple(pt)}")
+    if abs(X * y - Y * x) > 1e-9 or X * x + Y * y < -1e-12:
+        fails.append(f"azimuth changed at {tuple(pt)}: image {(X, Y)}")
+    return fails
+
+
+# --------------------------------------------------------------------------
+# INPUT SHAPES (added after seeded change C20e: `np.column_stack([x, y, z]).reshape(-1, 3)` groups unrelated
+# numbers into a "point" as soon as the coordinate arrays have two or more dimensions, while every case of
+# this harness was a scalar / 1-element call).  A case ("grid", fn, axes | None, pts, arr) carries K exact
+# points `pts` in flat order -- for product grids `axes` = (xs, ys, zs) with pts[(i*b + j)*c + k] =
+# (xs[i], ys[j], zs[k]) -- and an arrangement `arr`: how the three arguments are laid out.  The
+# implementation is called once (K times for "scalar_calls"); every output is broadcast to the full shape and
+# read back POINT BY POINT: outputs at the position of point q are compared with the model's single-point
+# entry on pts[q] and judged by the single-point oracle.
+# --------------------------------------------------------------------------
+GRID_FN = ("to_spherical", "to_cartesian", "lambert")
+
+
+def _shapes_of(K, dims):
+    """full-array shapes for K = a*b*c points"""
+    a, b, c = dims
+    out = [(K,), (K, 1), (1, K), (a, b * c), (a * b, c), (a, b, c), (1, a, b * c)]
+    if c == 1:
+        out += [(a, b), (b, a)]
+    return [s for s in dict.fromkeys(out) if int(np.prod(s)) == K]
+
+
+def grid_arrangements(dims, has_axes, fn):
+    a, b, c = dims
+    K = a * b * c
+    arrs = [{"kind": "scalar_calls"}]
+    for shp in _shapes_of(K, dims):
+        arrs.append({"kind": "full", "shape": list(shp)})
+    for shp in _shapes_of(K, dims):
+        if len(shp) >= 2 and min(shp) > 1:
+            arrs.append({"kind": "full_F", "shape": list(shp)})           # Fortran-ordered copies
+            arrs.append({"kind": "full_T", "shape": list(shp)})           # transposed views of a C array
+    if has_axes and fn != "lambert":
+        # arguments of DIFFERENT shapes, broadcast against each other (lambert_equal_area needs equal shapes:
+        # numpy.ma.masked_where refuses a condition of another shape than its array)
+        arrs.append({"kind": "sparse3"})                                  # (a,1,1), (1,b,1), (1,1,c)
+        arrs.append({"kind": "sparse3_lastfull"})                         # (a,1,1), (1,b,1), full (a,b,c)
+        if c == 1:
+            arrs += [{"kind": "mesh_row_col"},                            # x (a,1), y (b,), third a Python scalar
+                     {"kind": "mesh_row_col_arr0d"},                      # ... third a 0-d array
+                     {"kind": "np_meshgrid_xy"}, {"kind": "np_meshgrid_ij"},   # first two from np.meshgrid, third full
+                     {"kind": "np_mgrid"}]                                # index-style dense grids, third scalar
+    return arrs
+
+
+def present_grid(c):
+    """-> (list of argument triples to call with, index array I: position in the broadcast output -> flat point)"""
+    _, fn, axes, pts, arr = c
+    P = np.array([[float(v) for v in p] for p in pts], dtype=np.float64)
+    K = len(pts)
+    kind = arr["kind"]
+    if kind == "scalar_calls":
+        return [tuple(float(v) for v in p) for p in P], np.arange(K)
+    if kind in ("full", "full_F", "full_T"):
+        shp = tuple(arr["shape"])
+        if kind == "full_T":
+            I = np.arange(K).reshape(shp[::-1]).T
+            args = tuple(np.ascontiguousarray(P[:, d].reshape(shp[::-1])).T for d in range(3))
+        else:
+            I = np.arange(K).reshape(shp)
+            args = tuple(P[:, d].reshape(shp).copy(order="F" if kind == "full_F" else "C") for d in range(3))
+        return [args], I
+    xs, ys, zs = (np.array([float(v) for v in ax], dtype=np.float64) for ax in axes)
+    a, b, cc = len(xs), len(ys), len(zs)
+    if kind == "sparse3":
+        return [(xs.reshape(a, 1, 1), ys.reshape(1, b, 1), zs.reshape(1, 1, cc))], np.arange(K).reshape(a, b, cc)
+    if kind == "sparse3_lastfull":
+        return [(xs.reshape(a, 1, 1), ys.reshape(1, b, 1), np.broadcast_to(zs, (a, b, cc)).copy())], np.arange(K).reshape(a, b, cc)
+    I2 = np.arange(K).reshape(a, b)
+    if kind == "mesh_row_col":
+        return [(xs.reshape(a, 1), ys.copy(), float(zs[0]))], I2
+    if kind == "mesh_row_col_arr0d":
+        return [(xs.reshape(a, 1), ys.reshape(1, b), np.array(zs[0]))], I2
+    if kind == "np_meshgrid_xy":
+        X, Y = np.meshgrid(xs, ys)                    # shape (b, a), X[j, i] = xs[i]
+        return [(X, Y, np.full(X.shape, zs[0]))], I2.T
+    if kind == "np_meshgrid_ij":
+        X, Y = np.meshgrid(xs, ys, indexing="ij")     # shape (a, b)
+        return [(X, Y, np.full(X.shape, zs[0]))], I2
+    if kind == "np_mgrid":
+        ii, jj = np.mgrid[0:a, 0:b]
+        return [(xs[ii], ys[jj], float(zs[0]))], I2
+    raise ValueError(kind)
+
+
+def eval_grid(c):
+    """outputs of the implementation, one row per point (flat order): ndarray (K, n_out); raises what the call raises"""
+    import pydrex.geometry as geo
+    _, fn, axes, pts, arr = c
+    f = {"to_spherical": geo.to_spherical, "to_cartesian": geo.to_cartesian, "lambert": geo.lambert_equal_area}[fn]
+    calls, I = present_grid(c)
+    K = len(pts)
+    if arr["kind"] == "scalar_calls":
+        rows = [[float(np.asarray(v).reshape(-1)[0]) for v in f(*a)] for a in calls]
+        outs = None
+        return np.array(rows, dtype=np.float64), None
+    args = calls[0]
+    before = [_bytes(a) for a in args]
+    outs = f(*args)
+    if [_bytes(a) for a in args] != before:
+        raise RuntimeError("the call changed its arguments")
+    full = np.broadcast_shapes(*[np.shape(a) for a in args])
+    res = np.full((K, len(outs)), np.nan)
+    for d, o in enumerate(outs):
+        o = np.asarray(o, dtype=np.float64)
+        o = np.broadcast_to(o, full) if o.shape != full else o           # an output may have the shape of the arguments it depends on
+        res[I.reshape(-1), d] = o.reshape(-1)
+    return res, outs
+
+
+def grid_fails(c):
+    import pydrex.geometry as geo
+    _, fn, axes, pts, arr = c
+    try:
+        res, outs = eval_grid(c)
+    except Exception as e:  # noqa: BLE001
+        return [f"{fn} on arguments arranged as {arr} raised {type(e).__name__}: {e}"]
+    back = None
+    if fn == "to_spherical":
+        if outs is not None:      # the round trip feeds the returned arrays back, as a caller does
+            try:
+                bo = geo.to_cartesian(outs[1], outs[2], outs[0])
+                _, I = present_grid(c)
+                full = np.broadcast_shapes(*[np.shape(o) for o in outs])
+                back = np.full((len(pts), 3), np.nan)
+                for d, o in enumerate(bo):
+                    back[I.reshape(-1), d] = np.broadcast_to(np.asarray(o, dtype=np.float64), full).reshape(-1)
+            except Exception as e:  # noqa: BLE001
+                return [f"to_cartesian(*to_spherical(...)) on {arr} raised {type(e).__name__}: {e}"]
+        else:
+            back = np.array([[float(np.asarray(v).reshape(-1)[0]) for v in geo.to_cartesian(r[1], r[2], r[0])] for r in res])
+    fails = []
+    for q, p in enumerate(pts):
+        where = f" [point {q} of {len(pts)}, arguments arranged as {arr}]"
+        if fn == "to_spherical":
+            f1 = sph_fails(f"to_spherical{tuple(_exact(p))}", p, res[q, 0], res[q, 1], res[q, 2], back[q])
+        elif fn == "to_cartesian":
+            f1 = cart_fails(f"to_cartesian{tuple(p)}", p, res[q, 0], res[q, 1], res[q, 2])
+        else:
+            f1 = lambert_fails(p, res[q, 0], res[q, 1])
+        if f1:
+            fails.append(f1[0] + where)
+            if len(fails) >= 3:
+                break
+    return fails
+
+
+def _grid_axes(rng, fn, dims, flavour):
+    a, b, c = dims
+    if fn == "to_cartesian":
+        return ([float(v) for v in rng.uniform(-math.pi, math.pi, a)], [float(v) for v in rng.uniform(0.05, math.pi - 0.05, b)],
+                [float(v) for v in 10.0 ** rng.uniform(-2, 2, c)])
+    if flavour == "int":
+        return tuple([float(v) for v in rng.choice(np.arange(-9, 10)[np.arange(-9, 10) != 0], size=n, replace=False)] for n in (a, b, c))
+    m = 10.0 ** rng.uniform(-3, 3)
+    return tuple([float(v) for v in m * rng.uniform(-1, 1, n)] for n in (a, b, c))
+
+
+def gen_grids(rng, tier):
+    """shape families: the same points as scalar calls, 1-D, column / row, 2-D grids of several aspect ratios, 3-D
+    grids, Fortran / transposed layouts, and arguments of different shapes broadcast against each other"""
+    cases = []
+    dimss = [(2, 2, 1), (2, 3, 1), (3, 2, 1), (4, 3, 1), (1, 5, 1), (5, 1, 1), (2, 3, 2), (3, 2, 2), (2, 2, 3)]
+    if tier != "quick":
+        dimss += [(7, 5, 1), (3, 4, 5), (6, 2, 2), (2, 9, 1), (16, 16, 1)]
+    for fn in ("to_spherical", "to_cartesian"):
+        for dims in dimss:
+            for flavour in (("float", "int") if fn == "to_spherical" else ("float",)):
+                axes = _grid_axes(rng, fn, dims, flavour)
+                pts = [(x, y, z) for x in axes[0] for y in axes[1] for z in axes[2]]
+                for arr in grid_arrangements(dims, True, fn):
+                    cases.append(("grid", fn, axes, pts, arr))
+    for dims in dimss[:7] if tier == "quick" else dimss:       # lambert: unit vectors (no product structure), equal shapes only
+        K = dims[0] * dims[1] * dims[2]
+        pts = [tuple(float(x) for x in v) for v in unit_vectors(rng, K)]
+        pts[0] = (0.0, 0.0, 1.0)
+        if K > 3:
+            pts[3] = (0.0, 0.0, -1.0)
+        for arr in grid_arrangements(dims, False, "lambert"):
+            cases.append(("grid", "lambert", None, pts, arr))
+    return cases
+
+
+def compare_grid(chk, c, mres, hist):
+    """one grid case against the model's single-point entries; returns a disagreement text or None"""
+    _, fn, axes, pts, arr = c
+    key = f"shape:{fn}:{arr['kind']}" + (":" + "x".join(map(str, arr["shape"])) if "shape" in arr else "")
+    hist[key] = hist.get(key, 0) + 1
+    hist[f"shape_ndim:{fn}:" + (str(len(arr["shape"])) if "shape" in arr else arr["kind"])] = hist.get(
+        f"shape_ndim:{fn}:" + (str(len(arr["shape"])) if "shape" in arr else arr["kind"]), 0) + 1
+    chk.note_case(repr((fn, pts[:3], len(pts), arr)), nontrivial=arr["kind"] != "scalar_calls", sample=None)
+    if len(chk.cov["samples"]) < 8 and hist[key] == 1 and arr["kind"] in ("full", "np_meshgrid_xy", "sparse3") and len(arr.get("shape", [0, 0])) >= 2:
+        chk.cov["samples"].append({"fn": fn, "points": len(pts), "arrangement": arr, "first_point": list(pts[0])})
+    try:
+        with warnings.catch_warnings():
+            warnings.simplefilter("ignore")
+            res, _ = eval_grid(c)
+    except Exception as e:  # noqa: BLE001
+        return f"{fn} on arguments arranged as {arr}: implementation raises {type(e).__name__}: {e}"
+    for q, m in enumerate(mres):
+        got = list(res[q])
+        if m[0] == "ERR":
+            if not (m[1] == "DivZero" and any(math.isnan(v) for v in got)):
+                return f"{fn} point {q} {pts[q]} arranged as {arr}: model raises {m[1]}, implementation {got}"
+            continue
+        okc, j = common.vec_close(got, m[1], rtol=1e-12)
+        if not okc:
+            return (f"{fn} point {q} of {len(pts)} {tuple(pts[q])}, arguments arranged as {arr}: output {j}: implementation "
+                    f"{got[j] if 0 <= j < len(got) else None!r} vs model {m[1][j] if 0 <= j < len(m[1]) else None!r}")
+    return None
+
+
+# --------------------------------------------------------------------------
 # the property oracle: a direct reading of C20 on the public API (search only)
 # --------------------------------------------------------------------------
 def oracle(c):
@@ -882,56 +1168,24 @@ def oracle(c):
     with warnings.catch_warnings():
         warnings.simplefilter("ignore")
         try:
-            if c[0] == "to_spherical":
-                # reference values from exact Python integers / math (never from NumPy in the caller's dtype)
-                ex = [int(v) if float(v).is_integer() else float(v) for v in c[1]]
-                p = np.array([float(v) for v in ex])
-                if not np.any(p):
+            if c[0] == "grid":
+                fails += grid_fails(c)
+            elif c[0] == "to_spherical":
+                if not any(float(v) for v in c[1]):
                     return []
-                if all(isinstance(v, int) for v in ex):
-                    n = math.sqrt(sum(v * v for v in ex)) if max(abs(v) for v in ex) < 2**500 else math.hypot(*p)
-                else:
-                    n = math.hypot(*p)
                 out = geo.to_spherical(*present(c))
                 r, ph, th = (float(np.asarray(v).reshape(-1)[0]) for v in out)
                 # the round trip feeds the returned arrays back, as a caller does
                 back = np.array([float(np.asarray(v).reshape(-1)[0]) for v in geo.to_cartesian(out[1], out[2], out[0])])
-                shown = f"to_spherical{tuple(ex)}" + (f" given as {rep_of(c)['dt']} ({rep_of(c)['as']})" if rep_of(c) else "")
-                if not np.all(np.isfinite([r, ph, th])):
-                    fails.append(f"{shown} is not finite: {(r, ph, th)}")
-                elif not np.all(np.isfinite(back)) or np.abs(back - p).max() > 1e-9 * n:
-                    fails.append(f"to_cartesian({shown}) = {back} != p = {p} (r = {r}, |p| = {n})")
-                else:
-                    if abs(r - n) > 1e-12 * n:
-                        fails.append(f"{shown}: r = {r} is not |p| = {n}")
-                    if not (0 <= th <= math.pi) or abs(math.cos(th) - p[2] / n) > 1e-9:
-                        fails.append(f"{shown}: theta = {th} is not the colatitude acos(z/r) = {math.acos(max(-1, min(1, p[2] / n)))}")
-                    s = math.hypot(p[0], p[1])
-                    if s > 1e-9 * n and (abs(s * math.cos(ph) - p[0]) > 1e-9 * n or abs(s * math.sin(ph) - p[1]) > 1e-9 * n):
-                        fails.append(f"{shown}: phi = {ph} is not the longitude of ({p[0]}, {p[1]})")
-                    elif s > 1e-9 * n and abs(math.remainder(ph - math.atan2(p[1], p[0]), 2 * math.pi)) > 1e-12:
-                        fails.append(f"{shown}: phi = {ph} is not atan2(y, x) = {math.atan2(p[1], p[0])}")
+                shown = f"to_spherical{tuple(_exact(c[1]))}" + (f" given as {rep_of(c)['dt']} ({rep_of(c)['as']})" if rep_of(c) else "")
+                fails += sph_fails(shown, c[1], r, ph, th, back)
             elif c[0] == "to_cartesian":
-                ph, th, r = (float(v) for v in c[1])
                 x, y, z = (float(np.asarray(v).reshape(-1)[0]) for v in geo.to_cartesian(*present(c)))
-                e = np.array([r * math.sin(th) * math.cos(ph), r * math.sin(th) * math.sin(ph), r * math.cos(th)])
                 shown = f"to_cartesian({c[1][0]}, {c[1][1]}, {c[1][2]})" + (f" given as {rep_of(c)['dt']} ({rep_of(c)['as']})" if rep_of(c) else "")
-                if not np.all(np.isfinite([x, y, z])) or np.abs(np.array([x, y, z]) - e).max() > 1e-12 * abs(r):
-                    fails.append(f"{shown} = {(x, y, z)}, expected {tuple(e)}")
+                fails += cart_fails(shown, c[1], x, y, z)
             elif c[0] == "lambert":
-                x, y, z = (float(v) for v in c[1])
-                if abs(x * x + y * y + z * z - 1) > 1e-12:
-                    return []
                 X, Y = (float(np.asarray(v).reshape(-1)[0]) for v in geo.lambert_equal_area(*present(c)))
-                if not (math.isfinite(X) and math.isfinite(Y)):
-                    fails.append(f"lambert_equal_area{c[1]} is not finite")
-                else:
-                    if X * X + Y * Y > 1 + 1e-12:
-                        fails.append(f"image of {c[1]} lies outside the unit disk")
-                    if abs(X * X + Y * Y - (1 - abs(z))) > 1e-9:
-                        fails.append(f"squared radius {X * X + Y * Y} != 1 - |z| = {1 - abs(z)} at {c[1]}")
-                    if abs(X * y - Y * x) > 1e-9 or X * x + Y * y < -1e-12:
-                        fails.append(f"azimuth changed at {c[1]}: image {(X, Y)}")
+                fails += lambert_fails(c[1], X, Y)
             elif c[0] == "poles":
                 ax, hkl, A = c[1], np.asarray(c[2], dtype=float), np.asarray(c[3], dtype=float)
                 if not isinstance(ax, str) or ax.lower() not in AXES:
@@ -1020,12 +1274,14 @@ def search(chk, extra=()):
     pool = sorted(extra, key=pref) + gen_cases(chk, "quick")
     for c in pool:
         rep = rep_of(c)
-        sig0 = (c[0], c[1] if c[0] == "poles" else None, rep["dt"] if rep else None)
+        sig0 = (c[0], c[1] if c[0] in ("poles", "grid") else None, rep["dt"] if rep else None)
+        if c[0] == "grid":     # one witness per (function, kind of arrangement)
+            sig0 += (c[4]["kind"] if c[4]["kind"].startswith(("full", "scalar")) else "broadcast",)
         if sig0 in seen and rep:
             continue
         fails = oracle(c)
         if fails:
-            sig = sig0 if rep else sig0 + (fails[0][:25],)
+            sig = sig0 if (rep or c[0] == "grid") else sig0 + (fails[0][:25],)
             if sig in seen:
                 continue
             seen.add(sig)
@@ -1037,6 +1293,23 @@ def search(chk, extra=()):
 
 
 def shrink(c):
+    if c[0] == "grid":
+        # the smallest arrangement of the same kind that still fails: the first 4 (then 6, 8) points as a 2 x k grid
+        _, fn, axes, pts, arr = c
+        if arr["kind"].startswith("full"):
+            for k in (2, 3, 4):
+                if 2 * k <= len(pts):
+                    c1 = ("grid", fn, None, pts[:2 * k], {"kind": arr["kind"], "shape": [2, k]})
+                    if oracle(c1):
+                        return c1
+        elif axes is not None and len(axes[2]) == 1:
+            for a, b in ((2, 2), (2, 3), (3, 2)):
+                if a <= len(axes[0]) and b <= len(axes[1]):
+                    ax2 = (axes[0][:a], axes[1][:b], axes[2])
+                    c1 = ("grid", fn, ax2, [(x, y, z) for x in ax2[0] for y in ax2[1] for z in ax2[2]], arr)
+                    if oracle(c1):
+                        return c1
+        return c
     if c[0] == "poles":
         for g in range(len(c[3])):
             if popts(c).get("hkl_as") == "alias_row" and g > 0:
@@ -1078,6 +1351,10 @@ def run(chk):
         "non-unit vectors (|z| > 1) and random unit vectors; poles for six reference-axes strings x 10 hkl x 1..1000 random orientations "
         "(+ non-orthonormal and singular matrices); point_density for five kernels x axial/non-axial x random/girdle/cluster data sets of 1..500 "
         "vectors x grid sizes 5..101 x sigma x scalar weights, each with a permuted and (axial) sign-flipped copy. "
+        "INPUT SHAPES (after seeded change C20e): the same K points (product grids of 2x2 .. 4x3 and 2x3x2 .. 2x2x3 [thorough up to 16x16, 3x4x5], float and small-integer coordinates; unit vectors for lambert) "
+        "given to to_spherical / to_cartesian / lambert_equal_area as K scalar calls, 1-D, column (K,1), row (1,K), 2-D grids of every factorisation, 3-D grids, Fortran-ordered and transposed copies, and (conversions) as arguments of "
+        "DIFFERENT shapes broadcast against each other: (a,1,1)/(1,b,1)/(1,1,c), column x row + Python or 0-d scalar, np.meshgrid xy / ij, np.mgrid index grids; outputs are read back point by point and compared with the "
+        "model's single-point entry, histogram shape:<fn>:<arrangement>. "
         "poles option space (own random stream, shuffled call order): all 24 case spellings of the six strings x random hkl x 1..17 orientations x "
         "hkl given as float/int list, tuple, int/float32/strided/read-only array or a view into the orientation stack x orientations given as "
         "C/Fortran/float32/int/strided/reversed/transposed/sub-block/read-only arrays x ref_axes positional/keyword/default; default hkl; illegal "
